@@ -402,7 +402,8 @@ func workC14Graphs(w *run.W) {
 		// the same project opened through a relative root path (bare name from its directory; path from the parent
 		// directory): same verdict, same file, same line
 		if b.Panic == nil {
-			for _, sp := range [][2]string{{dir, nodes[0]}, {filepath.Dir(dir), filepath.Base(dir) + "/" + nodes[0]}} {
+			for _, sp := range [][2]string{{dir, nodes[0]}, {filepath.Dir(dir), filepath.Base(dir) + "/" + nodes[0]},
+				{dir, "./" + nodes[0]}, {"/", dir + "//" + nodes[0]}, {"/", dir + "/./" + nodes[0]}} {
 				if err := os.Chdir(sp[0]); err != nil {
 					continue
 				}
@@ -430,7 +431,7 @@ func workC14Graphs(w *run.W) {
 				if b2.Panic != nil {
 					w.Violation("C14", b2.Panic.Key(), "include graph opened through a relative root path panics: "+b2.Panic.Value+"\n"+showProject(pr), detail)
 				} else if cls(b.Err, true) != cls(b2.Err, false) {
-					w.Violation("C14", "relative-root-differs", fmt.Sprintf("root opened as %q from %s: %s; opened by absolute path: %s\n%s", sp[1], map[bool]string{true: "its directory", false: "the parent directory"}[sp[0] == dir], cls(b2.Err, false), cls(b.Err, true), showProject(pr)), detail)
+					w.Violation("C14", "relative-root-differs", fmt.Sprintf("root opened as %q from %s: %s; opened by absolute path: %s\n%s", sp[1], map[bool]string{true: "its directory", false: "the parent directory"}[sp[0] == dir]+" (cwd "+sp[0]+")", cls(b2.Err, false), cls(b.Err, true), showProject(pr)), detail)
 				}
 			}
 		}
